@@ -121,6 +121,8 @@ func checkC02(c *Ctx) {
 			c7Appends(c, "R2.19", fn)
 		}
 	}
+	c.Rule("R2.20", "nothing is appended into spare capacity of, or written over, a slice handed in or held by a parent (a field list re-used at a later call site, or a sibling's context, would be emitted with other fields than were added)", 1)
+	c7AppendsAll(c, "R2.20")
 	c.Rule("R2.14", "short caller representation: everything after the penultimate '/', the whole path with fewer than two separators", 1)
 	c2TrimmedPath(c, "R2.14")
 	c.Rule("R2.13", "what decodes must first parse: every path of every encoder method writes exactly one well-formed member / element / entry (token grammar)", 20)
